@@ -296,6 +296,8 @@ def configs(tier):
                         out.append(dict(cw=cw, ratio=ratio, caw=caw, sel_thin=True, dat_tokens=2, r_tokens=2))
                 else:
                     out.append(dict(cw=cw, ratio=ratio, caw=caw))
+    out.append(dict(cw=8, ratio=2, caw=2, elab_twice=True))
+    out.append(dict(cw=16, ratio=4, caw=3, dat_tokens=1, r_tokens=2, elab_twice=True))
     # harness B: registers spanning several granules, aligned inside one Wishbone word
     out.append(dict(cw=8, ratio=2, caw=3, regs=[(16, 0), (12, 2), (8, 4)]))
     out.append(dict(cw=8, ratio=4, caw=3, regs=[(32, 0), (20, 4)]))
